@@ -208,7 +208,10 @@ def impl_ops(spec):
         res["ops"][f"pickle_{p}"] = o
     for name, deep, fn in (("copy.copy", False, lambda: copy.copy(x)), ("copy.deepcopy", True, lambda: copy.deepcopy(x)),
                            ("copy(deep=True)", True, lambda: x.copy(deep=True)), ("copy(deep=False)", False, lambda: x.copy(deep=False)),
-                           ("copy()", True, lambda: x.copy())):
+                           ("copy()", True, lambda: x.copy()),
+                           # `deep` is a truth value, not the literal True / False (seeded C14-m5: `deep is True`)
+                           ("copy(deep=np.True_)", True, lambda: x.copy(deep=np.True_)), ("copy(deep=1)", True, lambda: x.copy(deep=1)),
+                           ("copy(deep=np.False_)", False, lambda: x.copy(deep=np.False_)), ("copy(deep=0)", False, lambda: x.copy(deep=0))):
         o, y = outcome_of(fn)
         o["deep"] = deep
         if y is not None:
